@@ -352,9 +352,13 @@ def c07(run):
     if os.path.exists(out2):
         os.remove(out2)
     run.mc("MC_Chars", "Chars.wide.cfg", env={"OUT": out2}, heap="8g", timeout=3000)
+    out3 = vec("C07-Chars-long.ndjson")
+    if os.path.exists(out3):
+        os.remove(out3)
+    run.mc("MC_Chars", "Chars.long.cfg", env={"OUT": out3}, heap="8g", timeout=3000)
     run.sample_file(out)
-    run.replay([out, out2], "Chars state graphs")
-    _consteval_sample(run, "C07-consteval", [out, out2], "Chars", 500 if q else 3000)
+    run.replay([out, out2, out3], "Chars state graphs")
+    _consteval_sample(run, "C07-consteval", [out, out2, out3], "Chars", 500 if q else 3000)
     run.record_and_validate("Chars", "Trace_Chars", "Trace_Chars.cfg", n_files=4 if q else 16,
                             n_events=4000 if q else 15000)
     # complete sweep of from_u32 / encode_utf8 / decode over every u32 in 0..0x120000 (4608 blocks of 256)
